@@ -126,6 +126,10 @@ def _index_helpers(cb, ext):
     out.append(mk("offset_into_cluster", lambda m: x0 % m.cs, "x mod cluster_size"))
     out.append(mk("size_to_clusters", lambda m: (x0 + m.cs - 1) / m.cs, "ceil(size / cluster_size)"))
     out.append(mk("offset_to_l1_index", lambda m: x0 / (1 << (m.l2_bits + m.cb)), "x div (l2_size * cluster_size)"))
+    # the same index in the nested form the read-path contracts use (contracts/qcow2_read.py: RunModel.c_l1i)
+    c2 = mk("offset_to_l1_index", lambda m: (x0 / m.cs) / (1 << m.l2_bits), "(x div cluster_size) div l2_size")
+    c2.case += ",nested"
+    out.append(c2)
     out.append(mk("offset_to_l2_index", lambda m: (x0 / m.cs) % (1 << m.l2_bits), "(x div cluster_size) mod l2_size"))
     out.append(mk("offset_to_sc_index", lambda m: (x0 / (1 << m.scb)) % (32 if ext else 1), "(x div subcluster_size) mod subclusters_per_cluster"))
     return out
